@@ -101,6 +101,52 @@ def match(key, name):
     raise AnalysisError(f"cannot decide whether column {ir.show(key)} is {ir.show(name)} (bind the estimand to a constant)")
 
 
+def comp_selects(comp, name):
+    """Does the column list `[c for c in <frame>.columns if <prefix / equality tests on c>]` contain column `name`?
+    True / False, AnalysisError when undecidable."""
+    if not (comp[0] == "comp" and len(comp[3]) == 1 and comp[2][0] == "elem"):
+        raise AnalysisError(f"column list {ir.show(comp, maxdepth=3)} not understood")
+    gen = comp[3][0]
+    if not (gen[1][0] == "attr" and gen[1][2] == "columns"):
+        raise AnalysisError(f"column list {ir.show(comp, maxdepth=3)} is not a selection from <frame>.columns")
+    elem = comp[2]
+
+    def lead(n):
+        """constant prefix of a column-name term, and whether it is the whole name"""
+        if n[0] == "const" and isinstance(n[1], str):
+            return n[1], True
+        if n[0] == "fstr" and n[1] and n[1][0][0] == "const":
+            return n[1][0][1], False
+        raise AnalysisError(f"column name {ir.show(n)} has no constant prefix")
+
+    pre, whole = lead(name)
+
+    def ev(c):
+        if c[0] == "bool":
+            vals = [ev(x) for x in c[2]]
+            return any(vals) if c[1] == "or" else all(vals)
+        if c[0] == "un" and c[1] == "not":
+            return not ev(c[2])
+        if c[0] == "call" and c[1] == ("attr", elem, "startswith") and c[2] and c[2][0][0] == "const":
+            p = c[2][0][1]
+            ps = p if isinstance(p, tuple) else (p,)
+            for q in ps:
+                if pre.startswith(q):
+                    return True
+                if not whole and q.startswith(pre):
+                    raise AnalysisError(f"cannot decide whether {ir.show(name)} starts with {q!r}")
+            return False
+        if c[0] == "cmp" and c[1] in ("==", "!=") and c[2] == elem and c[3][0] == "const":
+            if not whole:
+                if isinstance(c[3][1], str) and c[3][1].startswith(pre):
+                    raise AnalysisError(f"cannot decide whether {ir.show(name)} is {c[3][1]!r}")
+                return c[1] == "!="
+            return (pre == c[3][1]) == (c[1] == "==")
+        raise AnalysisError(f"column filter {ir.show(c, maxdepth=3)} not understood")
+
+    return all(ev(c) for c in gen[2])
+
+
 class Frames:
     def __init__(self, builder, bases=None):
         self.b = builder
@@ -135,6 +181,16 @@ class Frames:
                 return self.col(obj, name)
             if key[0] == "tuple":
                 raise AnalysisError(f".loc assignment {ir.show(key, maxdepth=3)} not resolved")
+            if key[0] == "comp":
+                sel = comp_selects(key, name)
+                if not sel:
+                    return self.col(obj, name)
+                # frame[cols] = frame[cols].fillna(c): the column keeps its values, missing ones become c
+                if val[0] == "call" and val[1][0] == "attr" and val[1][2] == "fillna" and val[1][1] == ("sub", obj, key):
+                    fv = dict(val[3]).get("value", val[2][0] if val[2] else None)
+                    if fv == ("const", 0):
+                        return ("fill0", self.col(obj, name))
+                raise AnalysisError(f"multi-column assignment {ir.show(key, maxdepth=3)} := {ir.show(val, maxdepth=3)} not resolved")
             raise AnalysisError(f"assignment with computed key {ir.show(key, maxdepth=3)}")
         if k == "phi":
             a, b = self.col(fr[2], name), self.col(fr[3], name)
